@@ -15,7 +15,7 @@ from mcheck.core.runner import Ctx, Result, Violation
 from mcheck.props import applycommon as AC
 
 ID = "C16"
-PLACEMENTS = ["top", "after_docstring", "after_future", "in_function", "in_type_checking", "after_code", "type_checking_in_try", "in_try", "in_with", "in_for", "in_class", "next_to_if_on_call_attribute", "type_checking_else", "late_type_checking_import"]
+PLACEMENTS = ["top", "after_docstring", "after_future", "in_function", "in_type_checking", "after_code", "type_checking_in_try", "in_try", "in_with", "in_for", "in_class", "next_to_if_on_call_attribute", "type_checking_else", "late_type_checking_import", "after_other_future"]
 DIFF_PLACEMENTS = ["top", "in_function", "in_type_checking", "type_checking_else", "late_type_checking_import", "in_try"]   # quick tier: differential against the unconfined application
 FORMS = ["import_pkg", "import_sub", "from_import", "from_import_as", "from_star", "import_as"]
 USES = [True, False]
@@ -50,6 +50,9 @@ def gen_source(pl: str, form: str, use: bool) -> Tuple[str, str]:
         L += ['"""Docstring first."""']
     if pl == "after_future":
         L += ["from __future__ import annotations"]
+    if pl == "after_other_future":
+        # another __future__ feature (and the word in a comment): `annotations` is still to be added, first
+        L += ["# uses __future__ division", "from __future__ import division"]
     if pl == "in_type_checking":
         L += ["from typing import TYPE_CHECKING", "if TYPE_CHECKING:", "    " + stmt]
         use = False  # a name imported only for type checking cannot be used at runtime
@@ -358,6 +361,56 @@ def seq_cases() -> List[Tuple[str, str]]:
     return [(pl, fo) for pl in PLACEMENTS for fo in FORMS if pl != "in_class"]
 
 
+CLI_CASES = [(pl, fo, sk) for pl in ("top", "after_docstring", "after_other_future", "in_type_checking", "late_type_checking_import") for fo in ("from_import", "import_pkg") for sk in ("new_user_module", "typing_name")]
+
+
+def run_cli_case(res: Result, ctx: Ctx, xi: int, srcdir: Path) -> None:
+    """The same application through the command line (`monkeytype apply --pep_563 module`, traces read from a store, the
+    module file rewritten in place): the rewritten file is judged like any other result."""
+    import io
+    import os
+
+    import mcfg
+    from monkeytype import cli
+    from monkeytype.stubs import build_module_stubs_from_traces
+    from monkeytype.typing import NoOpRewriter
+
+    pl, fo, sk = CLI_CASES[xi]
+    src, _expr = gen_source(pl, fo, True)
+    modname = f"c16x_{ctx.seed}_{xi}"
+    path = srcdir / f"{modname}.py"
+    path.write_text(src)
+    importlib.invalidate_caches()
+    mod = importlib.import_module(modname)
+    case = {"ci": -3, "cli_case": xi, "placement": pl, "form": fo, "use": True, "stub": sk, "overwrite": False}
+    res.states += 1
+    res.evaluations += 1
+    res.validated += 1
+    res.transitions += 4
+    try:
+        traces, k = make_traces(mod, sk)
+        db = str(srcdir / f"{modname}.sqlite3")
+        if os.path.exists(db):
+            os.unlink(db)
+        mcfg.reset(db=db, k=k, rewriter=NoOpRewriter())
+        mcfg.CONFIG.trace_store().add(traces)
+        stub = build_module_stubs_from_traces(traces, k)[modname].render()
+        out, err = io.StringIO(), io.StringIO()
+        rc = cli.main(["-c", "mcfg:fresh()", "apply", "--pep_563", modname], out, err)
+        result = path.read_text()
+    except Exception as e:  # noqa: BLE001
+        res.violate(Violation(ID, "apply-failed", "cli:" + type(e).__name__, case, f"`monkeytype apply --pep_563`: raised {type(e).__name__}: {str(e)[:300]}"))
+        sys.modules.pop(modname, None)
+        return
+    if rc != 0:
+        res.violate(Violation(ID, "apply-failed", "cli:nonzero", case, f"`monkeytype apply --pep_563` rc={rc}: {err.getvalue()[-300:]}"))
+    else:
+        for kind, sig, msg in check(src, stub, result, case):
+            res.violate(Violation(ID, kind, "cli:" + sig, case, "via `monkeytype apply --pep_563`: " + msg + f"\n--- source ---\n{src[:400]}\n--- result ---\n{result[:600]}"))
+    res.oblige("saw:cli-apply-pep563", True)
+    sys.modules.pop(modname, None)
+
+
 def history_pairs(quick: bool = False) -> List[Tuple[int, int]]:
     """Ordered pairs of case indices for histories of two applications to two DIFFERENT modules in one fresh process: one
     whose source already confines an import under `if TYPE_CHECKING:` (or holds it in the else branch) and one whose stub
@@ -429,11 +482,14 @@ def run(ctx: Ctx) -> Result:
         rl = [(pl, sk) for pl in REL_PLACEMENTS for sk in REL_STUBS]
         for ri in range(shi, len(rl), nshards):
             run_rel(res, ctx, ri, rl[ri][0], rl[ri][1], srcdir)
+        for xi in range(shi, len(CLI_CASES), nshards):
+            run_cli_case(res, ctx, xi, srcdir)
         return res
 
     res = run_shards(ctx, shard, list(range(nshards)))
     res.merge(run_histories(ctx))
     res.obligations.setdefault("saw:two-module-histories", False)
+    res.obligations.setdefault("saw:cli-apply-pep563", False)
     res.obligations.setdefault("saw:type-checking-block", False)
     res.obligations.setdefault("saw:second-apply", False)
     res.obligations.setdefault("saw:relative-import-source", False)
@@ -448,6 +504,9 @@ def replay(case: Dict[str, Any], ctx: Ctx) -> List[Violation]:
     sys.path.insert(0, str(srcdir))
     if case.get("history"):
         return run_history(ctx, tuple(case["history"])).violations
+    if case.get("ci") == -3:
+        run_cli_case(res, ctx, case["cli_case"], srcdir)
+        return res.violations
     if case.get("ci") == -2:
         rl = [(pl, sk) for pl in REL_PLACEMENTS for sk in REL_STUBS]
         run_rel(res, ctx, case["rel"], rl[case["rel"]][0], rl[case["rel"]][1], srcdir)
